@@ -118,6 +118,33 @@ CLAIMED = {
         "exactly and compares.",
         "Dyadic kernels/amounts so the expected value is exact; relative tolerance 2e-5.",
         "DESIGN.md section 3 (C13)"),
+    "C14": (
+        "TLA+ model of the KFL / dense-Lattice equivalence checked by TLC; differential trace validation by TLC of pairs "
+        "of real observations (and of the functional forms against layers holding the derived parameters)",
+        "TLC checks on every small KFL parameter set and grid point that KflEval equals hypercube interpolation of the "
+        "dense kernel bias + mean_t scale_t * outer product (exact rationals). On the real code: KFL vs a Lattice "
+        "loaded with that dense kernel, pwl_calibration_fn vs a PWLCalibration layer holding the returned derived "
+        "keypoints/kernel, cdf_fn vs CDF for 'mean' and 'none', ParallelCombination vs column-wise calibrators (tensor "
+        "and list inputs, single_output on/off), Aggregation vs a loop over ragged rows of different lengths, RTL vs "
+        "gathering _rtl_structure indices into its lattice layers; TLC compares each pair entry by entry.",
+        "Differential between real observations (float tolerance 6-10 units of 2^-13 relative); the geometric-mean CDF is "
+        "excluded as the statement says.",
+        "DESIGN.md section 3 (C14)"),
+    "C15": (
+        "TLA+ model of pwl_calibration_fn with softmax/sigmoid abstracted (any positive vector summing to 1 / any value "
+        "in (0,1)) and everything else exact, checked by TLC over every call form; real calls validated by TLC with the "
+        "derived parameters as refinement mapping",
+        "TLC explores every valid combination of monotonicity, clamps, cyclic and missing modes, 2-3 keypoints, abstract "
+        "softmax/sigmoid outcomes and a grid of inputs: the derived kernel has one entry per keypoint (size arithmetic of "
+        "every documented form incl. omitted interior parameters), outputs stay in [output_min, output_max], clamped "
+        "ends are reached, cyclic ends are equal, and the function is non-decreasing across every grid step when "
+        "increasing. Real pwl_calibration_fn calls (free-form parameters up to magnitude 50, units 1-2) return their "
+        "derived parameters; TLC checks the abstraction's facts on them, that the outputs are the PWL function of the "
+        "derived parameters (fixed point) and the contract on real outputs; every documented call form must be "
+        "accepted; CDF layers (relu6 exact, sigmoid abstract) must stay in [0,1] and be monotone on ordered pairs.",
+        "Parameters large enough for float32 softmax to underflow are outside the model; the repaired None-form defect "
+        "is listed as fixed.",
+        "DESIGN.md section 3 (C15)"),
     "C17": (
         "TLA+ state machines of the RTL arrangement, random ensemble, all-pairs cover and Crystals allocation/placement "
         "with every random choice nondeterministic, model-checked by TLC; real structures and hook-recorded steps "
